@@ -14,6 +14,11 @@ import JoblibModel.IOUtil
 * `sniffns <bytes peek() returns> <pos> <hex>` → the same for a peekable object that is not seekable
 * `start <hex>`  → `yes` | `no`                                     (`isPickleStart`)
 * `tables`       → the generated tables the driver was built from
+* `hist <n> <op>|<op>|…` → one reply per operation, joined by `|`   (`hreplies histEnv`: a HISTORY of operations in one
+  process with `n` module globals, all bound at version 0 at the start)
+  `<op>` : `d,<slot s>,<arg>,<target>,<protocol>,<g>,<id>`  dump an instance of global `g` carrying `id` → `ok` | `err:<Class>`
+           `l,<slot s>`                                       load → `loaded:g=<g>:v=<version of the class>:id=<id>` | `loaded:none` | `nofile`
+           `r,<g>,<ver>`                                      global `g` is re-bound (version `ver`) → `rebound`
 Anything else → `bad-op`. -/
 open JoblibModel JoblibModel.DumpLoad JoblibModel.Generated JoblibModel.IOUtil
 
@@ -105,8 +110,44 @@ def showTables : String :=
     ++ ";max=" ++ toString maxPrefixLen ++ ";lz4=" ++ (if lz4Installed then "1" else "0")
     ++ ";zlevel=" ++ toString zlibDefaultLevel ++ ";hp=" ++ toString pickleHighestProtocol
 
+def setBinding (g v : Nat) (b : List (Nat × Nat)) : List (Nat × Nat) := (g, v) :: b
+
+def parseHOp (nglobals : Nat) (t : String) : Option (HOp (List (Nat × Nat)) HObj) :=
+  match t.splitOn "," with
+  | ["d", slot, a, tg, p, g, id] => do
+    let slot ← parseStr slot
+    let a ← parseArg? a
+    let tg ← parseTarget tg
+    let p ← p.toNat?
+    let g ← g.toNat?
+    let id ← id.toNat?
+    if g < nglobals ∧ p ≤ pickleHighestProtocol then pure (.dump slot (g, 0, id) a tg p) else none
+  | ["l", slot] => (parseStr slot).map .load
+  | ["r", g, v] => do
+    let g ← g.toNat?
+    let v ← v.toNat?
+    if g < nglobals then pure (.rebind (setBinding g v)) else none
+  | _ => none
+
+def showHReply : HReply HObj → String
+  | .dumped => "ok"
+  | .dumpErr e => "err:" ++ e.name
+  | .loaded none => "loaded:none"
+  | .loaded (some (g, v, id)) => "loaded:g=" ++ toString g ++ ":v=" ++ toString v ++ ":id=" ++ toString id
+  | .noFile => "nofile"
+  | .rebound => "rebound"
+
 def handle (line : String) : String :=
   match tokens line with
+  | ["hist", n, ops] =>
+    match n.toNat? with
+    | none => "bad-op"
+    | some n =>
+      match (ops.splitOn "|").mapM (parseHOp n) with
+      | none => "bad-op"
+      | some ops =>
+        let s0 : Proc (List (Nat × Nat)) := ⟨[], (List.range n).map (fun g => (g, 0))⟩
+        "|".intercalate ((hreplies histEnv s0 ops).map showHReply)
   | ["resolve", a, t] =>
     match parseArg? a, parseTarget t with
     | some a, some t => showWriter (dumpHeader a t)
